@@ -110,6 +110,24 @@ def check_expect(case, rec):
         rec.mon("valid-no-error")
         if errs:
             rec.violation("well-typed sidecar built from valid strings draws an error", dict(case, observed=errs))
+        # validated again, and with a caller's list of extra definitions that is reused from call to call
+        try:
+            import io as _io
+            import json as _json
+            from hed.models.sidecar import Sidecar
+            from hed.models.definition_dict import DefinitionDict
+            schema = env.schema(case["version"])
+            extras = [DefinitionDict(["(Definition/Zzextra-def, (Event))"], schema)]
+            runs = []
+            for _ in range(3):
+                sc = Sidecar(_io.StringIO(_json.dumps(case["doc"])))
+                runs.append(sorted({i["code"] for i in sc.validate(schema, extra_def_dicts=extras) if i["severity"] == 1}))
+            rec.mon("revalidated-with-shared-extras")
+            if len(extras) != 1 or any(r != errs for r in runs):
+                rec.violation("validating with a reused list of extra definitions changes the list or the verdict",
+                              dict(case, observed=runs, extras_len=len(extras)))
+        except Exception as ex:  # noqa
+            rec.violation(f"validating with extra definitions raised {type(ex).__name__}", case)
     else:
         rec.mon("fault-has-code")
         rec.count("fault", case["fault"])
@@ -147,7 +165,11 @@ def inject(doc, kinds, fault, rng):
         if not vals:
             return None
         c = rng.choice(vals)
-        d[c]["HED"] = d[c]["HED"] + ", Label/#"
+        if rng.random() < 0.5:
+            d[c]["HED"] = d[c]["HED"] + ", Label/#"
+        else:
+            # the surplus '#' inside the same tag
+            d[c]["HED"] = d[c]["HED"].replace("#", rng.choice(["##", "#-#", "# #"]), 1)
     elif fault == "pound-in-category":
         if not cats:
             return None
